@@ -446,7 +446,7 @@ func (g *G) intExpr(d int) Expr {
 	}
 	switch g.pick(12, "intexpr") {
 	case 0, 1:
-		ops := []string{"+", "-", "*", "&", "|", "^", "+", "-"}
+		ops := []string{"+", "-", "*", "&", "|", "^", "+", "-", "&^"}
 		return &Binary{Op: ops[g.pick(len(ops), "iop")], L: g.intExpr(d - 1), R: g.intExpr(d - 1)}
 	case 2:
 		var r Expr = IntLit(int64(g.intn(1, 5, "div")))
